@@ -136,7 +136,13 @@ func (g *G) genPnftMsg() (sdk.Msg, string) {
 			ownerAct(d.OwnerAddr)
 		}
 		id := pick(g, "token-id", ids)
-		if g.chance("remint-burned", 20) {
+		if ex := m.TokensOf(denom); len(ex) > 0 && g.chance("look-alike-id", 18) {
+			// an id that differs from an existing one of this denom by surrounding white space only
+			base := strings.TrimSpace(ex[g.intn("look-alike-of", len(ex))].ID)
+			if base != "" {
+				id = pick(g, "look-alike", []string{" " + base, base + "\t", base + " ", base})
+			}
+		} else if g.chance("remint-burned", 20) {
 			// a token id that was burned in this denom earlier
 			var burned []string
 			for k := range m.BurnedTokens {
@@ -161,7 +167,28 @@ func (g *G) genPnftMsg() (sdk.Msg, string) {
 	if len(toks) > 0 && g.chance("aim-token", 88) {
 		tk = pick(g, "existing-token", toks)
 	}
-	if formerAct(m.FormerTokenOwner[tk]) {
+	siblingActed := false
+	if t := m.Tokens[tk]; t != nil && g.chance("by-sibling-holder", 30) {
+		// the holder of another token of the same denom (preferably one whose id looks alike)
+		var sib, alike []*world.PnftToken
+		for _, o := range m.TokensOf(tk.Denom) {
+			if o.ID != tk.ID && string(o.Owner) != string(t.Owner) {
+				sib = append(sib, o)
+				if strings.TrimSpace(o.ID) == strings.TrimSpace(tk.ID) {
+					alike = append(alike, o)
+				}
+			}
+		}
+		if len(alike) > 0 {
+			sib = alike
+		}
+		if len(sib) > 0 {
+			ownerAct(sib[g.intn("sibling", len(sib))].Owner)
+			siblingActed = true
+		}
+	}
+	if siblingActed {
+	} else if formerAct(m.FormerTokenOwner[tk]) {
 	} else if t := m.Tokens[tk]; t != nil && g.chance("by-owner", g.bias("by-owner", 65)) {
 		ownerAct(t.Owner)
 	}
